@@ -393,7 +393,11 @@ func boolInt(b bool) int {
 
 // ---------------------------------------------------------------- generator
 
-var placeNS = []string{"ns", "default", "test_ns", "a", "yz_kv_0001", "ns-with-dash", "x1"}
+// the last names hash (murmur3.Sum32) within a few dozen of 2^32 resp. 2^31: the ring slot `selectIndex + j` of the
+// v1 layout crosses the 32-bit boundaries there (a ring index kept in 32 bits wraps)
+var placeNS = []string{"ns", "default", "test_ns", "a", "yz_kv_0001", "ns-with-dash", "x1",
+	"ns528095144", "ns150161269", "ns1001648446", "ns219556178", "ns469077333", "ns157313749", "ns336116872",
+	"ns421872008", "ns792149751", "ns820578955", "ns35924403", "ns1092608791"}
 
 func genTopology(rng *rand.Rand) ([]string, map[string]string) {
 	n := 1 + rng.Intn(40)
